@@ -834,6 +834,36 @@ def unit(u: Tuple[Any, ...]) -> Part:
                     part.add("omitted_subvalue_sets", (variant, mask))
                     buf.append(case_of((ltype,), ((),), local, ref.BASE, False, variant))
                     _flush(part, buf)
+    elif kind == "mixed4":
+        # 4 layers, a layer reachable over parents of DIFFERENT layer types that are not each other's ancestors (e.g. the
+        # diamond BV <- {P1, P2, FG}, FG <- P1): kinds {absent, generic, P1}, values given
+        _, hidx = u
+        types, parents = hier(4)[hidx]
+        for placement in ref.placements(types, (ref.M_GIVEN,)):
+            if any(tuple(q for q, _ in pl) not in MIXED4_KINDS for pl in placement):
+                continue
+            part.count("placement_vectors")
+            part.count("vectors_mixed_priority_4_layers")
+            buf.extend(configs_for(types, parents, placement, ref.CORE, None, False, False))
+            _flush(part, buf)
+    elif kind == "big":
+        # very large integers (not representable as a double / 2**64-1) in every integer-typed parameter, explicit and as
+        # the default of the specification (a COMPARAM-SUBSET revision with these defaults); the two times keep small values
+        _, ltype = u
+        for proto in ref.PROTOS:
+            for rev, big in [(0, ref.BIG_VALUES[0]), (0, ref.BIG_VALUES[1]), (100, None), (101, None)]:
+                insts: List[Dict[str, Any]] = []
+                for param in ref.BASE:
+                    timed = (not ref.is_complex(param)) and ref.SIMPLE[param]["conv"] == "us"
+                    inst = ref.make_instance(0, param, proto, ref.M_GIVEN if (big is not None or timed) else ref.M_OMIT)
+                    if ref.is_complex(param):
+                        inst["subs"] = [None if big is None else str(big)] * len(inst["subs"])
+                    elif big is not None and not timed:
+                        inst["value"] = f"CANFD TX_DL={big}" if ref.SIMPLE[param].get("text") else str(big)
+                    insts.append(inst)
+                part.count("placement_vectors")
+                part.count("big_value_configurations")
+                run_batch(part, [dict(case_of((ltype,), ((),), [insts], ref.BASE), subset_rev=rev)])
     elif kind == "situations":
         # one layer; every accessor's parameter absent / default only / explicit / malformed, the response-id table absent or
         # of every flavour (CAN + DoIP, CAN only, DoIP only), frame-size and baud-rate parameter varied independently
@@ -874,6 +904,23 @@ SIMPLE_SITUATIONS = ("absent", "default", "given", "zero", "malformed")
 MALFORMED_NUMBER = "12ab"
 FRAME_SITUATIONS = ("absent", "default", "given", "zero", "CANFD TX_DL = 48", "no frame size here", "CANFD TX_DL=unknown")
 SITUATION_LAYERS = (ref.PROT, ref.BV)
+MIXED4_KINDS = ((), (None,), ("P1",))
+
+
+def mixed_priority_hierarchies() -> List[int]:
+    """Indices of the 4-layer hierarchies without shared data in which some layer has two parents of different layer types
+    neither of which inherits from the other."""
+    out = []
+    for hidx, (types, parents) in enumerate(hier(4)):
+        if ref.ESD in types:
+            continue
+        anc = ref.ancestors(parents)
+        for i in range(4):
+            live = [p_ for p_ in parents[i] if not any(p_ in anc[q] for q in parents[i] if q != p_)]
+            if len({types[p_] for p_ in live}) > 1:
+                out.append(hidx)
+                break
+    return out
 
 
 def plan(quick: bool) -> Tuple[List[Tuple[Any, ...]], Dict[str, Any], int]:
@@ -925,6 +972,15 @@ def plan(quick: bool) -> Tuple[List[Tuple[Any, ...]], Dict[str, Any], int]:
     bounds["situations"] = {"layer_types": list(SITUATION_LAYERS), "table": ["absent", "flat", "flat with all values 0", "can-only", "doip-only"],
                             "frame_size_parameter": list(FRAME_SITUATIONS), "baud_rate_parameter": list(SIMPLE_SITUATIONS),
                             "other_simple_parameters": list(SIMPLE_SITUATIONS), "malformed_number": MALFORMED_NUMBER}
+    mixed = mixed_priority_hierarchies()
+    bounds["mixed_priority_4_layer_hierarchies"] = {"hierarchies": len(mixed), "kinds_per_layer": ["absent", "generic", "P1"]}
+    for hidx in mixed:
+        units.append(("mixed4", hidx))
+        expect += len(MIXED4_KINDS) ** 4
+    bounds["big_values"] = [str(v) for v in ref.BIG_VALUES]
+    for t in SITUATION_LAYERS:
+        units.append(("big", t))
+        expect += 3 * 4
     for t in SITUATION_LAYERS:
         for variant, tables in (("flat", (True,)), ("flat", (False,)), ("flat", ("zero",)), ("can-only", (True,)), ("doip-only", (True,))):
             units.append(("situations", t, variant, tables))
@@ -994,8 +1050,9 @@ def run(ctx: Ctx) -> None:
             "sub-value); a COMPARAM-REF without any value element is outside the envelope (loader rejects it)",
             "PROTOCOL-SNREF is a name qualifier: P1 / P2 always name an existing PROTOCOL layer of the database (added unconnected "
             "if the hierarchy has fewer than two protocols) but need not be an ancestor of the layer carrying the COMPARAM-REF",
-            "DON'T-CARE: which of two parents wins when neither inherits from the other (two protocols, two functional groups, "
-            "functional group + unrelated protocol) -- any of the offered instances is accepted",
+            "DON'T-CARE: which of two parents OF THE SAME LAYER TYPE wins when neither inherits from the other (two protocols, two "
+            "functional groups) -- any of the offered instances is accepted; a parent of a closer layer type (functional group) "
+            "decides over one of a farther type (protocol), also for what it merely passes on from its own parents",
             "DON'T-CARE: get_comparam(name, P) when the generic instance is defined in a strictly closer layer than the P-specific one "
             "(either is accepted); get_comparam(name, None) with several instances of that name (any of them is accepted)",
             "get_max_can_payload_size(): the number after 'TX_DL' '=' (blanks allowed) of the effective value; the documented "
@@ -1053,6 +1110,8 @@ def run(ctx: Ctx) -> None:
                   c.get("views_with_inherited_entries", 0) > 0 and c.get("views_with_overridden_ancestor_instances", 0) > 0)
         ctx.guard("both MUST and DON'T-CARE lookups occurred", c.get("lookups_dontcare", 0) > 0 and c.get("lookups", 0) > c.get("lookups_dontcare", 0))
         ctx.guard("typed accessors were compared with numbers", c.get("accessor_calls", 0) > 1000)
+        ctx.guard("4-layer hierarchies with parents of different priority and very large integers were evaluated",
+                  c.get("vectors_mixed_priority_4_layers", 0) > 0 and c.get("big_value_configurations", 0) == 24)
         ctx.guard("sequence phase: all ordered pairs were run and compared with fresh-process answers",
                   c.get("sequence_pairs", 0) == 11 * 10 + 25 * 24 and c.get("sequence_differential_comparisons", 0) > 0)
         ctx.guard("accessors met absent / default-only / explicit / malformed parameters; frame size asked without the parameter on "
